@@ -72,7 +72,9 @@ func genInCase(r *simrt.Rand, tier string) *InCase {
 		}
 		for j := 0; j < ns; j++ {
 			if c.Eng.Network == "udp" {
-				cn.Sends = append(cn.Sends, r.Pick(1, 8, rb/2+1, rb-1, rb))
+				// (0: an empty datagram; whether that is handed to the data callback is left
+				// open, but it must not keep the datagrams queued behind it from being delivered)
+				cn.Sends = append(cn.Sends, r.Pick(1, 8, rb/2+1, rb-1, rb, 0))
 				continue
 			}
 			if r.Bool(0.2) {
@@ -368,6 +370,9 @@ func runUDP(c *InCase, w *World, o *common.Outcome) {
 		if o2 := byConn[nc]; o2 != nil && o2 != r {
 			w.Fail("C02", "udp-conn-shared", "", "two remotes share one connection object")
 		}
+		if len(data) == 0 {
+			return // an empty datagram: not compared (see the generator)
+		}
 		r.got = append(r.got, append([]byte(nil), data...))
 	})
 	if err := w.Start(); err != nil {
@@ -386,7 +391,13 @@ func runUDP(c *InCase, w *World, o *common.Outcome) {
 		simrt.GoNamed(fmt.Sprintf("udp-remote%d", i), func() {
 			defer func() { done++ }()
 			for j, n := range plan.Sends {
-				if n <= 0 {
+				if n < 0 {
+					continue
+				}
+				if n == 0 {
+					if j > 0 { // (a remote's first datagram creates its session: keep that one real)
+						w.K.PeerSendTo(r.sock, []byte{}, w.KAddr)
+					}
 					continue
 				}
 				b := Payload(100+i, 'U', j*70000, n)
